@@ -55,9 +55,9 @@ ASSUMPTIONS = [
     "to_rich_dict/from_dict and to_json round trips, and re-wrapping into a richer class via db=, are only asserted for databases whose source is ':memory:' (a db reopened from a file keeps source=<path>; from_dict and GffAnnotationDb(db=...) would reopen and extend that file); this is tracked conservatively through deepcopy, pickle, union and re-wrapping",
 ]
 
-SEQIDS = ["s1", "s2", "s3"]
-BIOTYPES = ["gene", "CDS", "exon", "mRNA", "misc_feature"]
-NAMES = ["n0", "n1", "n2", "g1", "t1"]
+SEQIDS = ["s1", "s2", "s3", "S1", "s_1", "sy1"]
+BIOTYPES = ["gene", "CDS", "cds", "exon", "mRNA", "misc_feature", "mis_feature", "misyfeature"]
+NAMES = ["n0", "n1", "n2", "g1", "t1", "N0", "n_1", "ny1", "G1"]
 TOK = "qzxkvh"
 SCRATCH = os.path.join(os.path.dirname(os.path.dirname(os.path.abspath(__file__))), ".scratch")
 
